@@ -49,6 +49,8 @@ def check(ctx):
         return
     pv = md.pv
     by_label = check_dispatch(ctx, md, KEY_PARAMS, RESULT)
+    from rules import c17 as _c17
+    _c17.check_tables(ctx.under("R-4", "registry"), only={"iana::KeyType", "iana::KeyOperation", "iana::Algorithm"})
     # "pairwise distinct labels": the duplicate rule of this decoder (C12 R-1's recogniser under this property's name)
     from rules import c12 as _c12
     _c12.check_decoder(ctx.under("R-1", "distinct-labels"), DEC, "R-1")
